@@ -108,6 +108,11 @@ def prove(ctx, spec):
     if rc != 0:
         ctx.obligation_failures.append({"kind": "lake-build", "detail": tail(out, 60)})
         ctx.log("lake build FAILED\n" + tail(out, 40))
+        # a broken proof obligation must not prevent the search for a failing input: build the drivers on their own
+        drivers = [part["driver"] for part in parts_of(spec) if part.get("driver")]
+        if drivers:
+            with LakeLock():
+                sh(["timeout", "-k", "10", "1500", "lake", "build"] + drivers, cwd=LEAN, timeout=3600)
     files = {}
     for m_ in mods:
         lean_deps(m_, files)
